@@ -224,6 +224,7 @@ ON_MAIN = {"on_main_thread": Ext(ret=Bool, pure=True, note="ghost: which thread 
 
 contract(
     F + "get_tasks", "C20", params={}, globals=GT, externals=ON_MAIN,
+    modifies=["_jobs_thread_local.tasks", "_jobs_thread_local.__missing_tasks"],
     ensures={
         "keeps-an-existing-view": "implies(not old(_jobs_thread_local.__missing_tasks), result is old_ref(_jobs_thread_local.tasks))",
         "main-thread-sees-the-main-order": "implies(old(_jobs_thread_local.__missing_tasks) and on_main_thread(), result is _tasks_main)",
@@ -235,6 +236,7 @@ contract(
 )
 contract(
     F + "get_jobs", "C20", params={}, globals=GT, externals=ON_MAIN,
+    modifies=["_jobs_thread_local.jobs", "_jobs_thread_local.__missing_jobs"],
     ensures={
         "keeps-an-existing-view": "implies(not old(_jobs_thread_local.__missing_jobs), result is old_ref(_jobs_thread_local.jobs))",
         "main-thread-sees-the-main-table": "implies(old(_jobs_thread_local.__missing_jobs) and on_main_thread(), result is XSH.all_jobs)",
